@@ -16,7 +16,7 @@ CONSTANTS OptionsNoneHandled, DegenerateDomainHandled, DegenerateTickFormatHandl
 Counts == {1, 2, 5, 40}
 TTypes == {"num", "date", "time", "datetime"}
 Arrs == {"distinct", "equal", "unsorted"}
-Spans == {"zero", "ms7", "subsec", "s1", "day", "monthend", "leap", "yearend", "months31", "leapyears", "century"}
+Spans == {"zero", "ms3", "ms7", "subsec", "s1", "day", "monthend", "leap", "yearend", "months31", "leapyears", "century"}
 OptShapes == {"omitted", "empty", "partial"}
 Dirs == {"up", "down", "left", "right"}
 Algs == {"overlap", "simple", "none"}
@@ -26,7 +26,7 @@ Desc == [count : Counts, ttype : TTypes, arr : Arrs, span : Spans, opts : OptSha
          bounds : Bounds, ticks : BOOLEAN, cluster : Clusters]
 \* documented inputs: numeric times need a caller-supplied linear scale, i.e. options given
 Valid(d) == (d.ttype = "num" => d.opts = "partial") /\ (d.cluster # "small" => d.count = 40)
-Degenerate(d) == d.count = 1 \/ d.arr = "equal" \/ d.span = "zero" \/ (d.ttype = "date" /\ d.span \in {"ms7", "subsec", "s1", "day"})
+Degenerate(d) == d.count = 1 \/ d.arr = "equal" \/ d.span = "zero" \/ (d.ttype = "date" /\ d.span \in {"ms3", "ms7", "subsec", "s1", "day"})
 InClaim(d) == Valid(d) /\ d.cluster # "c400"        \* clusters beyond the recursion limit are outside the claim
 
 VARIABLES desc, pc
@@ -38,7 +38,7 @@ Next == \/ Stage("merge", desc.opts = "omitted" => OptionsNoneHandled, "parse")
         \/ Stage("axis", Degenerate(desc) => DegenerateDomainHandled, "layout")
         \/ Stage("layout", desc.cluster # "c400", "ticks")
         \/ Stage("ticks", (desc.ticks \/ desc.opts # "partial") =>
-                             /\ (desc.span = "ms7" /\ desc.ttype \in {"datetime", "time"} /\ ~Degenerate(desc)) => IntegerMsStep
+                             /\ (desc.span \in {"ms3", "ms7"} /\ desc.ttype \in {"datetime", "time"} /\ ~Degenerate(desc)) => IntegerMsStep
                              /\ (desc.span \in {"monthend", "leap", "yearend", "months31", "leapyears"} /\ desc.ttype # "num") => DayStepByTimedelta
                              /\ (Degenerate(desc) /\ desc.ttype = "num") => DegenerateTickFormatHandled, "emit")
         \/ Stage("emit", TRUE, "emitted")
